@@ -233,7 +233,7 @@ func KConsistent(p *core.Prog, r *core.Report) {
 					}
 				}
 			}
-			listItems := strings.HasSuffix(schemaDesc, "Items.Schema")
+			listItems := strings.HasSuffix(schemaDesc, ".Items.Schema") && !strings.HasSuffix(schemaDesc, "AdditionalItems.Schema")
 			finalParts := pp
 			if setPath != nil {
 				finalParts = decomposePath(setPath.Call.Args[1], recv, 0)
